@@ -65,6 +65,8 @@ MapOps == <<
   [n |-> "assoc-a",     ar |-> 1, t |-> "(assoc _1 :a 9)"],
   [n |-> "dissoc",      ar |-> 1, t |-> "(dissoc _1 :a)"],
   [n |-> "dissoc-b",    ar |-> 1, t |-> "(dissoc _1 :b)"],
+  [n |-> "dissoc-multi", ar |-> 1, t |-> "(dissoc _1 :zz :a)"],
+  [n |-> "dissoc-multi2", ar |-> 1, t |-> "(dissoc _1 :zz :n :b)"],
   [n |-> "conj",        ar |-> 1, t |-> "(conj _1 :c 3)"],
   [n |-> "merge",       ar |-> 2, t |-> "(merge _1 _2)"],
   [n |-> "merge-lit",   ar |-> 1, t |-> "(merge _1 {:z 1})"],
